@@ -76,7 +76,7 @@ def run(ctx):
     dist = {"interrupts": {}, "nested": 0, "auto": 0, "histories": 0}
     hist_groups = []
     tries = 0
-    while len(hist_groups) < ctx.n(70, 1500) and tries < 20000:
+    while len(hist_groups) < ctx.n(200, 1500) and tries < 20000:
         tries += 1
         if rng.random() < 0.3:
             g, ints = sibling_interrupts(rng)
